@@ -588,6 +588,7 @@ func (h *httpServerHandler) handleGet(ctx context.Context, w http.ResponseWriter
 	w.Header().Set(httputil.SessionIDHeader, session.GetID())
 	w.WriteHeader(http.StatusOK)
 	flusher.Flush()
+	verifEvent("get.flushed", r)
 
 	// Create context, for canceling connection
 	connCtx, cancelConn := context.WithCancel(ctx)
@@ -612,6 +613,7 @@ func (h *httpServerHandler) handleGet(ctx context.Context, w http.ResponseWriter
 		sseResponder: newSSEResponder(),
 	}
 	h.getSSEConnections[session.GetID()] = conn
+	verifEvent("get.registered", r)
 	h.getSSEConnectionsLock.Unlock()
 
 	// Record connection information
@@ -624,10 +626,12 @@ func (h *httpServerHandler) handleGet(ctx context.Context, w http.ResponseWriter
 
 	// Wait for connection to close
 	<-connCtx.Done()
+	verifEvent("get.woken", r)
 
 	// Clean up connection
 	h.getSSEConnectionsLock.Lock()
 	delete(h.getSSEConnections, session.GetID())
+	verifEvent("get.cleaned", r)
 	h.getSSEConnectionsLock.Unlock()
 	h.logger.Infof("GET SSE connection closed, session ID: %s", session.GetID())
 }
@@ -637,6 +641,7 @@ func (h *httpServerHandler) sendNotificationToGetSSE(sessionID string, notificat
 	h.getSSEConnectionsLock.RLock()
 	conn, ok := h.getSSEConnections[sessionID]
 	h.getSSEConnectionsLock.RUnlock()
+	verifEvent("push.lookup", sessionID, ok)
 
 	if !ok {
 		return fmt.Errorf("%w: %s", ErrSessionNotFound, sessionID)
@@ -653,6 +658,7 @@ func (h *httpServerHandler) sendNotificationToGetSSE(sessionID string, notificat
 
 	// Update last event ID
 	conn.lastEventID = eventID
+	verifEvent("push.written", sessionID)
 	return nil
 }
 
@@ -748,6 +754,7 @@ func (h *httpServerHandler) SendRequest(ctx context.Context, sessionID string, r
 	// Register request and get response channel.
 	requestIDStr := fmt.Sprintf("%v", request.ID)
 	responseChan := h.responseManager.RegisterRequest(requestIDStr)
+	verifEvent("sreq.registered", sessionID, requestIDStr)
 	defer h.responseManager.UnregisterRequest(requestIDStr)
 
 	// Send the request through GET SSE using the proper sendRequest method.
